@@ -803,6 +803,21 @@ def main(run):
         stats["synthetic_definitions"] = stats["synthetic_definitions"] + ["verif_repar_ellipsoid (reparameterised, 1-D)"]
     except Exception as exc:  # noqa
         run.notes.append("reparameterised ellipsoid not available: %r" % (exc,))
+    # ... and the hollow definition (with its validity condition "thickness < 2.0*radius") reparameterised so that the
+    # radius is a SUM: the points the model declares valid are those where thickness < 2.0*(r_core + extra)
+    try:
+        _hinfo = load_model_info(hpaths["verif_hollow_cc"])
+        _rh = reparameterize(_hinfo, [["r_core", "Ang", 6.0, [0, _inf], "volume", ""], ["extra", "Ang", 3.0, [0, _inf], "volume", ""]],
+                             "radius = r_core + extra", filename=_os.path.join(run.scratch.sub("plugins"), "verif_repar_hollow.py"))
+        extra_models["verif_repar_hollow"] = build_model(_rh, dtype="double", platform="dll")
+        _hl = hollow_leaf(False)
+        leaf_fns["verif_repar_hollow"] = lambda pfull, mode, q: _hl(dict(pfull, radius=pfull["r_core"] + pfull["extra"]), mode, q)
+        stats["synthetic_definitions"] = stats["synthetic_definitions"] + ["verif_repar_hollow (reparameterised: radius = r_core + extra, with a validity condition)"]
+        corpus += [("verif_repar_hollow", "1d", dict(r_core=5.0, extra=3.0, thickness=14.0, thickness_pd=0.12, thickness_pd_n=9, thickness_pd_nsigma=3.0), 0.0, 1),
+                   ("verif_repar_hollow", "1d", dict(r_core=5.0, extra=3.0, extra_pd=0.5, extra_pd_n=7, extra_pd_nsigma=2.0, thickness=14.5), 0.0, 2),
+                   ("verif_repar_hollow", "1d", dict(r_core=8.0, r_core_pd=0.3, r_core_pd_n=8, extra=1.0, thickness=17.0, thickness_pd=0.05, thickness_pd_n=4), 1e-4, 0)]
+    except Exception as exc:  # noqa
+        run.notes.append("reparameterised hollow definition not available: %r" % (exc,))
     only_1d = set(extra_models)
     for name in list(models) + sorted(hpaths) + sorted(extra_models):
         model = extra_models[name] if name in extra_models else sas.load(hpaths.get(name, name))
